@@ -108,11 +108,14 @@ pub fn rand_op(rng: &mut StdRng, bdd: &mut Bdd, nv: usize, rec: &mut Rec, last: 
 
 /// all diagram queries of C13 on handle h
 pub fn query_json(rng: &mut StdRng, bdd: &Bdd, nv: usize, h: Term, id: String) -> Value {
+    // query order varies: some answers (depth without ad-hoc counting) may depend on what was memoised before
+    let depth_first = rng.gen_bool(0.5);
+    let depth0 = if depth_first { Some(bdd.max_depth(h)) } else { None };
+    let (p_naive, m_naive) = (bdd.paths(h, false), bdd.models(h, false));
+    let depth1 = if rng.gen_bool(0.5) { Some(bdd.max_depth(h)) } else { None };
     let p_memo = bdd.paths(h, true);
-    let p_naive = bdd.paths(h, false);
-    let m_naive = bdd.models(h, false);
     let m_memo = bdd.models(h, true);
-    let depth = bdd.max_depth(h);
+    let depth = depth0.or(depth1).unwrap_or_else(|| bdd.max_depth(h));
     let mut deps: Vec<usize> = bdd.var_dependencies(h).iter().map(|v| v.value()).collect();
     deps.sort();
     // impact measures on a random term list of length nv (position = variable index)
